@@ -1,5 +1,6 @@
 import TextxVerif.Proofs.PegGapSim
 import TextxVerif.Proofs.PegActiveSet
+import TextxVerif.Proofs.PegWsParam
 /-!
 # C22 — whitespace and comments between tokens do not change the model
 
@@ -19,6 +20,11 @@ Proved here
   and different `ws=` sets are all inside the fragment.
 * `C22_only_active_set` + `C22_identity_cache_invariant`: without a comment model no character outside the
   active set is ever skipped, in every mode (`noskipws`, `ws=`, `eolterm` included).
+
+* `C22_ws_param_denotes`, `C22_ws_param_skip`, `C22_ws_param_literal`: the `ws='…'` rule modifier as written in
+  the grammar (`visit_rule_params`, model `Peg/WsParam.lean`) — for every way of writing a set of characters
+  (each of new-line, carriage return, tab as escape sequence or literally, any other character literally,
+  any order, repetitions) the active set of the rule consists of exactly the characters written.
 
 Not proved: `C22_partial_comment` (inserting text matched by the Comment rule) — checked by the harness only.
 The full statement is false on the mirror and on the code because `comment_positions` is keyed by position
@@ -271,5 +277,41 @@ example : gapExtOkB w1b 1 [' '] w1bToksExt true defaultWs = true ∧
 
 example : skipTo #['a', ' ', '\n', 'b'] [' '] 1 = 2 ∧ skipTo #['a', ' ', '\n', 'b'] [' ', '\n'] 1 = 3 := by
   decide +kernel
+
+/-! ## (5) the `ws` rule modifier as written in the grammar -/
+
+/-- **The written `ws` value denotes its characters.**  However the set is written — each of new-line,
+carriage return and tab as an escape sequence or literally, every other character (except the backslash,
+which starts an escape sequence) literally, in any order, with repetitions — the set `visit_rule_params`
+puts in force for the rule contains exactly the characters written. -/
+theorem C22_ws_param_denotes (is : List WsItem) (h : WellSpelled is) (c : Char) :
+    c ∈ wsParam (spellWs is) ↔ ∃ i ∈ is, i.denotes = c := wsParam_denotes h c
+
+/-- … hence, between the tokens of such a rule, the skipping loop passes exactly the maximal run of
+characters that are written in the modifier. -/
+theorem C22_ws_param_skip (is : List WsItem) (h : WellSpelled is) (inp : Array Char) (q : Nat) :
+    (∀ j, q ≤ j → j < skipTo inp (wsParam (spellWs is)) q →
+      ∃ c, inp[j]? = some c ∧ ∃ i ∈ is, i.denotes = c) ∧
+    (∀ c, inp[skipTo inp (wsParam (spellWs is)) q]? = some c → ∀ i ∈ is, i.denotes ≠ c) := by
+  obtain ⟨_, h2, h3⟩ := C22_skip_maximal inp (wsParam (spellWs is)) q
+  refine ⟨fun j hq hj => ?_, fun c hc i hi hd => ?_⟩
+  · obtain ⟨c, hc, hm⟩ := h2 j hq hj
+    exact ⟨c, hc, (wsParam_denotes h c).1 hm⟩
+  · exact h3 c hc ((wsParam_denotes h c).2 ⟨i, hi, hd⟩)
+
+/-- A value without a backslash is taken as it is. -/
+theorem C22_ws_param_literal (cs : List Char) (h : '\\' ∉ cs) : wsParam cs = cs := by
+  unfold wsParam
+  have : ¬ (cs.contains '\\' = true) := by simpa using h
+  rw [if_neg this]
+
+/-- non-vacuity: `ws=' \t\r\n'` written with escapes, the same set with a literal tab and a comma, the
+flags `noskipws` / `skipws` (the last one wins), an unknown flag is rejected -/
+example : wsParam [' ', '\\', 't', '\\', 'r', '\\', 'n'] = ['\n', '\r', '\t', ' '] := by decide
+example : wsParam ['\\', 'n', '\t', ','] = ['\n', '\t', ','] := by decide
+example : wsParam (spellWs [.lit ' ', .escT, .escR, .escN]) = ['\n', '\r', '\t', ' '] := by decide
+example : ruleMods [.flag "noskipws", .ws ['\\', 'r'], .flag "skipws"] {} =
+    some { skipws := some true, ws := some ['\r'] } := by decide
+example : ruleMods [.flag "noskip"] {} = none := by decide
 
 end Peg
